@@ -1,7 +1,7 @@
 (* Properties_C09.v — C09: reserved domains recognised exactly, whatever precedes them. *)
 From Coq Require Import List NArith ZArith Lia Bool.
 From Coq Require Import Strings.Byte.
-Require Import Bytes Codes Hex Local Local6531 LocalSpec LocalProofs Utf8Spec Local6531Spec Local6531Proofs Domain DomainSpec DomainProofs Ip Special SpecialProofs Email EmailProofs Api ApiProofs TldProofs EnumTie.
+Require Import Bytes Codes Hex Local Local6531 LocalSpec LocalProofs Utf8Spec Local6531Spec Local6531Proofs Domain DomainSpec DomainProofs Ip Special SpecialProofs SourceTables Email EmailProofs Api ApiProofs TldProofs EnumTie.
 Import ListNotations.
 From Coq Require Strings.String.
 Import Strings.String.StringSyntax.
